@@ -18,9 +18,9 @@ VARIABLES l, cov,
           odr,      \* [1..11 -> last observed DR read-back] (used only by the named deviation)
           odd,      \* [1..11 -> last observed DDR read-back]
           bm,       \* memory overlay of the history
-          tm,       \* timer trace state (see H8Timer)
+          vTm,       \* timer trace state (see H8Timer)
           lastsum   \* last time stamp seen in an announcement check
-vars == <<l, cov, ports, odr, odd, bm, tm, lastsum>>
+vars == <<l, cov, ports, odr, odd, bm, vTm, lastsum>>
 
 AddrOf(e) == IF e.a[1] < 256 THEN e.a[1] * P16 + e.a[2] ELSE -1
 Acc(a) == a >= 0 /\ Accessible(a)
@@ -78,7 +78,7 @@ PortEvent(e, n, op, v) ==
      /\ Observe(e)
      /\ lastsum' = IF e.sum > lastsum THEN e.sum ELSE lastsum
      /\ cov' = cov \cup {<<"port", op>>}
-     /\ UNCHANGED <<bm, tm>>
+     /\ UNCHANGED <<bm, vTm>>
 
 (***************************************************************************)
 (* bus write / read                                                         *)
@@ -89,17 +89,17 @@ BusWrite(e) ==
        /\ IF e.res = "err" /\ e.wr = <<>> /\ e.msgs = <<>> /\ AllSame(e) THEN TRUE
           ELSE Rep("MISMATCH", e, "write inaccessible", <<"res/wr">>)
        /\ Observe(e) /\ cov' = cov \cup {<<"bw", "inaccessible">>}
-       /\ UNCHANGED <<ports, bm, tm, lastsum>>
+       /\ UNCHANGED <<ports, bm, vTm, lastsum>>
      ELSE IF IsDdr(a) THEN PortEvent(e, a - DdrLo + 1, "ddr", e.v)
      ELSE IF IsDr(a) THEN PortEvent(e, a - DrLo + 1, "dr", e.v)
      ELSE
        LET old == Rd(bm, a)
            expwr == IF old = e.v THEN <<>> ELSE << <<a, e.v>> >>
-           tw == TimerWrite(tm, a, e.v, bm)        \* timer bookkeeping of the trace state (C17)
+           tw == TimerWrite(vTm, a, e.v, bm)        \* timer bookkeeping of the trace state (C17)
        IN /\ IF e.res = "ok" /\ e.wr = expwr /\ e.msgs = <<>> /\ AllSame(e) THEN TRUE
              ELSE Rep("MISMATCH", e, "write plain", <<"res/wr">>)
           /\ bm' = WrAll(bm, << <<a, e.v>> >>)
-          /\ tm' = tw
+          /\ vTm' = tw
           /\ Observe(e) /\ cov' = cov \cup {<<"bw", RegionOf(a)>>}
           /\ UNCHANGED <<ports, lastsum>>
 
@@ -111,20 +111,20 @@ BusRead(e) ==
             ELSE e.res = "ok" /\ e.v = Rd(bm, a)
   IN /\ IF ok THEN TRUE ELSE Rep("MISMATCH", e, "read", <<"res/v">>)
      /\ cov' = cov \cup {<<"br", IF Acc(a) THEN RegionOf(a) ELSE "inaccessible">>}
-     /\ UNCHANGED <<ports, odr, odd, bm, tm, lastsum>>
+     /\ UNCHANGED <<ports, odr, odd, bm, vTm, lastsum>>
 
 PinEvent(e) ==
   IF e.port \in Ports THEN PortEvent(e, e.port, "pin", e.v)
   ELSE /\ IF e.res = "ok" /\ e.wr = <<>> /\ e.msgs = <<>> /\ AllSame(e) THEN TRUE
           ELSE Rep("MISMATCH", e, "external input to a non-existent port", <<"wr">>)
        /\ Observe(e) /\ cov' = cov \cup {<<"pin", "invalid">>}
-       /\ UNCHANGED <<ports, bm, tm, lastsum>>
+       /\ UNCHANGED <<ports, bm, vTm, lastsum>>
 
 ResetEvent(e) ==
   /\ ports' = [k \in Ports |-> PortInit]
   /\ odr' = [k \in Ports |-> 0] /\ odd' = [k \in Ports |-> 0]
   /\ bm' = MemOf(e.bg, <<>>)
-  /\ tm' = TimerTraceInit
+  /\ vTm' = TimerTraceInit
   /\ lastsum' = 0
   /\ UNCHANGED cov
 
@@ -145,17 +145,17 @@ ScanEvent(e) ==
       ok == e.iv = exp /\ \A i \in 1..Len(e.hi) : e.hi[i][3] = "err"
   IN /\ IF ok THEN TRUE ELSE Rep("MISMATCH", e, "scan " \o e.what, <<ToString(e.iv)>>)
      /\ cov' = cov \cup {<<"scan", e.what>>}
-     /\ UNCHANGED <<ports, odr, odd, bm, tm, lastsum>>
+     /\ UNCHANGED <<ports, odr, odd, bm, vTm, lastsum>>
 
 (***************************************************************************)
 (* timer events (C17), see H8Timer                                          *)
 (***************************************************************************)
 TickEvent(e) ==
-  LET r == TimerTick(tm, e, bm)
+  LET r == TimerTick(vTm, e, bm)
   IN /\ IF r.ok THEN TRUE
         ELSE IF r.dev # "" THEN Rep("DEVIATION", e, "timer tick", <<r.dev>>)
         ELSE Rep("MISMATCH", e, "timer tick", <<r.why>>)
-     /\ tm' = r.tm
+     /\ vTm' = r.tm
      /\ bm' = r.bm
      /\ cov' = cov \cup {<<"tick", r.cls>>}
      /\ UNCHANGED <<ports, odr, odd, lastsum>>
@@ -169,7 +169,7 @@ Consume ==
           [] e.k = "pin" -> PinEvent(e)
           [] e.k = "scan" -> ScanEvent(e)
           [] e.k = "tick" -> TickEvent(e)
-          [] OTHER -> PrintT("MISMATCH " \o ToJson([id |-> l, prop |-> PROP, row |-> "unknown-event-kind"])) /\ UNCHANGED <<cov, ports, odr, odd, bm, tm, lastsum>>
+          [] OTHER -> PrintT("MISMATCH " \o ToJson([id |-> l, prop |-> PROP, row |-> "unknown-event-kind"])) /\ UNCHANGED <<cov, ports, odr, odd, bm, vTm, lastsum>>
   /\ l' = l + 1
 
 Finish ==
@@ -177,11 +177,11 @@ Finish ==
   /\ PrintT("COVERAGE " \o ToJson([rows |-> SetToSeq(cov)]))
   /\ PrintT("DONE " \o ToString(NRec))
   /\ l' = l + 1
-  /\ UNCHANGED <<cov, ports, odr, odd, bm, tm, lastsum>>
+  /\ UNCHANGED <<cov, ports, odr, odd, bm, vTm, lastsum>>
 
 Init == /\ l = 1 /\ cov = {}
         /\ ports = [k \in Ports |-> PortInit] /\ odr = [k \in Ports |-> 0] /\ odd = [k \in Ports |-> 0]
-        /\ bm = MemOf("zero", <<>>) /\ tm = TimerTraceInit /\ lastsum = 0
+        /\ bm = MemOf("zero", <<>>) /\ vTm = TimerTraceInit /\ lastsum = 0
 Next == Consume \/ Finish
 Spec == Init /\ [][Next]_vars
 =============================================================================
